@@ -439,7 +439,7 @@ impl Gen {
                 2 => Op { op: "b_from_vec".into(), a: abs(n), b: abs(self.r.below(4)), mode: (self.r.below(3) == 0) as i64, ..Default::default() },
                 3 => Op { op: "b_from_box".into(), a: abs(n), ..Default::default() },
                 4 => Op { op: "b_copy".into(), a: abs(n), ..Default::default() },
-                5 => Op { op: "b_from_owner".into(), a: abs(n.max(1)), mode: if self.r.chance(10) { 1 } else if self.r.chance(15) { 2 } else if self.r.chance(12) { 3 } else { 0 }, ..Default::default() },
+                5 => Op { op: "b_from_owner".into(), a: abs(n.max(1)), mode: if self.r.chance(10) { 1 } else if self.r.chance(15) { 2 } else if self.r.chance(12) { 3 } else if self.r.chance(20) { 4 } else { 0 }, ..Default::default() },
                 6 => Op { op: "m_new".into(), mode: self.r.below(2) as i64, ..Default::default() },
                 7 => {
                     let c = if self.r.chance(25) { [16, 17, 32, 33, 48, 64, 65][self.r.below(7)] } else { self.r.below(2 * self.maxlen + 1) };
